@@ -442,10 +442,10 @@ func Main(c *Check, env *Env, opts RunOpts) int {
 		}
 	}
 	for _, f := range findings {
-		if witnessOK[f.ID] || known[f.ID] > 0 {
-			fmt.Printf("KNOWN-FINDING: property=%s %s: %s (witness reproduced: %v, explored cases attributed: %d)\n", c.ID, f.ID, f.What, witnessOK[f.ID], known[f.ID])
-		} else {
-			fmt.Printf("NOTE: listed finding %s of %s did not reproduce in this run\n", f.ID, c.ID)
+		// one line per listed finding in every run; whether this run met it is said in the line
+		fmt.Printf("KNOWN-FINDING: property=%s %s: %s (witness reproduced: %v, explored cases attributed: %d)\n", c.ID, f.ID, f.What, witnessOK[f.ID], known[f.ID])
+		if !witnessOK[f.ID] && known[f.ID] == 0 {
+			fmt.Printf("NOTE: listed finding %s of %s was not met by this run (no explored case in its trigger region deviated, witness not reproduced)\n", f.ID, c.ID)
 		}
 	}
 
